@@ -912,14 +912,15 @@ func (w *Worker) callBuiltin(caller *frame, callpos token.Pos, fn *ssa.Builtin, 
 			}
 			return dst
 		}
-		// grow like Go: at least double
-		nc := 2 * cap(dst)
-		if nc < len(dst)+len(src) {
-			nc = len(dst) + len(src)
+		// grow exactly as the Go runtime does (runtime.growslice of go 1.23: doubling below
+		// 256 elements, then +25%+192, rounded up to the allocator's size classes)
+		elemSize := int64(8)
+		if st, ok := fn.Type().(*types.Signature); ok && st.Params().Len() > 0 {
+			if sl, ok := st.Params().At(0).Type().Underlying().(*types.Slice); ok {
+				elemSize = goSizes.Sizeof(sl.Elem())
+			}
 		}
-		if nc < 4 {
-			nc = 4
-		}
+		nc := growCap(cap(dst), len(dst)+len(src), elemSize)
 		nd := make([]Value, len(dst), nc)
 		copy(nd, dst)
 		for _, e := range src {
@@ -1111,4 +1112,48 @@ func assignInPlace(dst *Value, v Value) {
 		}
 	}
 	*dst = copyVal(v)
+}
+
+
+var goSizes = types.SizesFor("gc", "amd64")
+
+var sizeClasses = []int64{0, 8, 16, 24, 32, 48, 64, 80, 96, 112, 128, 144, 160, 176, 192, 208, 224, 240, 256, 288, 320, 352, 384, 416, 448, 480, 512, 576, 640, 704, 768, 896, 1024, 1152, 1280, 1408, 1536, 1792, 2048, 2304, 2688, 3072, 3200, 3456, 4096, 4864, 5376, 6144, 6528, 6784, 6912, 8192, 9472, 9728, 10240, 10880, 12288, 13568, 14336, 16384, 18432, 19072, 20480, 21760, 24576, 27264, 28672, 32768}
+
+// roundUpSize: runtime.roundupsize (small sizes to their size class, large ones to pages).
+func roundUpSize(size int64) int64 {
+	if size <= 32768 {
+		for _, c := range sizeClasses {
+			if c >= size {
+				return c
+			}
+		}
+	}
+	const page = 8192
+	return (size + page - 1) / page * page
+}
+
+// growCap: the capacity runtime.growslice gives a slice of oldCap elements that must hold newLen.
+func growCap(oldCap, newLen int, elemSize int64) int {
+	newcap := oldCap
+	doublecap := newcap + newcap
+	if newLen > doublecap {
+		newcap = newLen
+	} else {
+		const threshold = 256
+		if oldCap < threshold {
+			newcap = doublecap
+		} else {
+			for 0 < newcap && newcap < newLen {
+				newcap += (newcap + 3*threshold) >> 2
+			}
+			if newcap <= 0 {
+				newcap = newLen
+			}
+		}
+	}
+	if elemSize <= 0 {
+		return newcap
+	}
+	mem := roundUpSize(int64(newcap) * elemSize)
+	return int(mem / elemSize)
 }
